@@ -32,13 +32,13 @@ DESIGN = {
     "quick": [
         ("one", "Spec", 3, 1, 2, "ConsNone", (0, 1), "ParAll", 2, "MapsNone", False),
         ("two", "Spec", 2, 2, 2, "ConsNone", (0, 1), "ParAll", 1, "MapsNone", False),
-        ("con", "Spec", 3, 1, 3, "ConsTwo", (0,), "ParAll", 1, "MapsNone", False),
+        ("con", "Spec", 3, 1, 3, "ConsTwo", (0,), "ParAll", 0, "MapsNone", False),
         ("bulk", "FairSpec", 3, 1, 2, "ConsNone", (0,), "ParAll", 1, "MapsAll", True),
     ],
     "thorough": [
         ("one", "Spec", 4, 1, 2, "ConsNone", (0, 1), "ParSome", 2, "MapsNone", False),
         ("two", "Spec", 3, 2, 2, "ConsNone", (0,), "ParAll", 1, "MapsNone", False),
-        ("con", "Spec", 3, 1, 3, "ConsThree", (0,), "ParAll", 2, "MapsNone", False),
+        ("con", "Spec", 3, 1, 3, "ConsThree", (0,), "ParAll", 1, "MapsNone", False),
         ("bulk", "FairSpec", 3, 1, 2, "ConsTwoV2", (0,), "ParSome", 1, "MapsAll", True),
         ("bulk4", "FairSpec", 4, 1, 1, "ConsNone", (0,), "ParAll", 1, "MapsAll", True),
     ],
@@ -61,9 +61,21 @@ def _seal(trace):
             open(trace, "w").write("\n".join(lines) + "\n")
 
 
+def _tidy():
+    """TLC drops trace-explorer modules next to the specification whenever it reports an error."""
+    import glob
+    for f in glob.glob(os.path.join(SPEC, "*_TTrace_*")):
+        try:
+            os.remove(f)
+        except OSError:
+            pass
+
+
 def _validate(ck, trace, tag="t"):
     _seal(trace)
     n_ev, rej, st = vc.validate_trace(SPEC, "AliasingTrace", TCFG, trace)
+    if rej:
+        _tidy()
     ck.events += n_ev
     ck.traces += vc.count_scenarios(trace)
     ck.handle_rejections(rej, _sig, tag=tag)
@@ -117,6 +129,7 @@ def _selfcheck_corrupted(ck, trace, wd):
         open(p, "w").write("\n".join(ls) + "\n")
         n_ev, rej, st = vc.validate_trace(SPEC, "AliasingTrace", TCFG, p, parallel=1)
         os.remove(p)
+        _tidy()
         if not rej or rej[0].index > idx:
             raise vc.MachineryError("trace specification accepted a corrupted trace (%s at event %d)" % (what, idx))
         rejected += 1
@@ -246,6 +259,7 @@ def run(tier, seed):
 
 def replay(path):
     n_ev, rej, st = vc.validate_trace(SPEC, "AliasingTrace", TCFG, path, parallel=1)
+    _tidy()
     for rj in rej:
         vc.log("VIOLATION property=C03 replay=%s" % path)
         vc.log("  %s at event #%d: %s" % (rj.reason, rj.index, json.dumps(rj.event)[:800]))
